@@ -273,3 +273,148 @@ def c18(ctx):
             ctx.check('hold-table', lds <= {('S', 'hold_state_flag')}, ctx.site('cat_is_hold', m.fn_line('cat_is_hold')),
                       'cat_is_hold depends on %s' % sorted(lds))
     return ctx
+
+
+# ------------------------------------------------------------------------------------- C13
+RING = ('S', 'unsolicited_fsm')
+
+
+def _ring_setup(head, tail, count):
+    def setup(s):
+        s.pnull['MUTEX'] = True
+        s.mem[RING + ('unsolicited_cmd_buffer_head',)] = Lin.c(head)
+        s.mem[RING + ('unsolicited_cmd_buffer_tail',)] = Lin.c(tail)
+        s.mem[RING + ('unsolicited_cmd_buffer_items_count',)] = Lin.c(count)
+    return setup
+
+
+def c13(ctx):
+    from .rules_fsm import transitions, ring_models, cval, short
+    m0 = ctx.model
+    ctx.assume('API bodies are atomic with respect to each other (C16/C17); triggers carry a valid command and kind READ or TEST')
+    ctx.assume('delivery order as observed through real threads is C17\'s subject')
+    total_triples = 0
+    for cap, m in ring_models(ctx):
+        E = m.prog.enums
+        OK, FULL, BUSY = E['CAT_STATUS_OK'], E['CAT_STATUS_ERROR_BUFFER_FULL'], E['CAT_STATUS_BUSY']
+        idx = Index(m.prog)
+        # who touches the ring
+        ring_fields = [(rec, fld) for (rec, fld) in idx.field_stores if rec == 'cat_unsolicited_fsm' and fld.startswith('unsolicited_cmd_buffer')] + \
+                      [(rec, fld) for (rec, fld) in idx.field_stores if rec == 'cat_unsolicited_cmd']
+        writers = {}
+        for rf in ring_fields:
+            for fn, line in idx.field_stores[rf]:
+                writers.setdefault(fn, set()).add(rf[1])
+        trig = idx.reachable('cat_trigger_unsolicited_event') | {'cat_trigger_unsolicited_event'}
+        evt = idx.reachable(m.ms.evt_dispatch) | {m.ms.evt_dispatch}
+        init = idx.reachable('cat_init') | {'cat_init'}
+        for fn, flds in sorted(writers.items()):
+            where = [n for n, s in (('trigger', trig), ('event-machine', evt), ('init', init)) if fn in s]
+            ctx.check('who', bool(where), ctx.site(fn, m.fn_line(fn)), 'function %s writes ring fields %s but is reachable neither from the trigger API, the event machine nor cat_init' % (fn, sorted(flds)))
+            if 'unsolicited_cmd_buffer_tail' in flds and fn not in init:
+                ctx.check('who', fn in trig and fn not in evt, ctx.site(fn, m.fn_line(fn)), 'the producer side of the ring (%s) is reachable from the event machine' % fn)
+            if 'unsolicited_cmd_buffer_head' in flds and fn not in init:
+                ctx.check('who', fn in evt and fn not in trig, ctx.site(fn, m.fn_line(fn)), 'the consumer side of the ring (%s) is reachable from the trigger API' % fn)
+        # exhaustive check of push and pop over every consistent ring state of this capacity
+        rd = E['CAT_CMD_TYPE_READ']
+        triples = [(h, t, c) for h in range(cap) for c in range(cap + 1) for t in [(h + c) % cap]]
+        total_triples += len(triples)
+        for (h, t, c) in triples:
+            # push
+            def setup(s, h=h, t=t, c=c):
+                _ring_setup(h, t, c)(s)
+                s.pnull['XCMD'] = False
+            outs = m.run('cat_trigger_unsolicited_event', [SELF, ('obj', 'XCMD'), Lin.c(rd)], setup=setup)
+            site = ctx.site('cat_trigger_unsolicited_event', m.fn_line('cat_trigger_unsolicited_event'))
+            ctx.check('ring', len(outs) == 1, site, '[capacity %d] push from (head %d, tail %d, count %d) is not deterministic' % (cap, h, t, c))
+            for s, rv in outs:
+                sts = [e for e in trace_events(s.trace) if e['k'] == 'st']
+                if c == cap:
+                    ctx.check('refuse-clean', _const(rv) == FULL and not sts, site,
+                              '[capacity %d] a trigger on a full queue must report BUFFER_FULL and leave no trace (returns %s, stores %s)' % (cap, rv, [_descr(e) for e in sts]))
+                    continue
+                nh = _const(s.mem.get(RING + ('unsolicited_cmd_buffer_head',)))
+                nt = _const(s.mem.get(RING + ('unsolicited_cmd_buffer_tail',)))
+                nc = _const(s.mem.get(RING + ('unsolicited_cmd_buffer_items_count',)))
+                slot_c = s.mem.get(RING + ('unsolicited_cmd_buffer', t, 'cmd'))
+                slot_t = _const(s.mem.get(RING + ('unsolicited_cmd_buffer', t, 'type')))
+                ok = _const(rv) == OK and nh == h and nt == (t + 1) % cap and nc == c + 1 and slot_c == ('obj', 'XCMD') and slot_t == rd
+                others = [e for e in sts if e['loc'][:3] == RING + ('unsolicited_cmd_buffer',) and e['loc'][3] != t]
+                ctx.check('ring', ok and not others, site,
+                          '[capacity %d] push from (head %d, tail %d, count %d) gives (head %s, tail %s, count %s), slot %d = (%s, %s), returns %s'
+                          % (cap, h, t, c, nh, nt, nc, t, slot_c, slot_t, rv))
+            # full predicate agrees
+            outs = m.run('cat_is_unsolicited_buffer_full', [SELF], setup=_ring_setup(h, t, c))
+            rets = set(_const(rv) for s, rv in outs)
+            ctx.check('refuse-clean', rets == ({FULL} if c == cap else {OK}), ctx.site('cat_is_unsolicited_buffer_full', m.fn_line('cat_is_unsolicited_buffer_full')),
+                      '[capacity %d] cat_is_unsolicited_buffer_full returns %s with %d of %d queued' % (cap, sorted(map(str, rets)), c, cap))
+            # pop: one idle step of the event machine
+            uidle = m.prog.enum_types['cat_unsolicited_state']['consts']['CAT_UNSOLICITED_STATE_IDLE']
+
+            def setup2(s, h=h, t=t, c=c):
+                _ring_setup(h, t, c)(s)
+                s.mem[RING + ('state',)] = Lin.c(uidle)
+                s.mem[RING + ('cmd',)] = ('null',)
+            outs = m.run(m.ms.evt_dispatch, [SELF], setup=setup2)
+            site = ctx.site(m.ms.evt_dispatch, m.fn_line(m.ms.evt_dispatch))
+            for s, rv in outs:
+                evs = trace_events(s.trace)
+                nh = _const(s.mem.get(RING + ('unsolicited_cmd_buffer_head',)))
+                nt = _const(s.mem.get(RING + ('unsolicited_cmd_buffer_tail',)))
+                nc = _const(s.mem.get(RING + ('unsolicited_cmd_buffer_items_count',)))
+                slots_read = set(e['loc'][3] for e in evs if e['k'] == 'ld' and e['loc'][:3] == RING + ('unsolicited_cmd_buffer',))
+                if c == 0:
+                    eff = [e for e in evs if e['k'] in ('st', 'cb', 'wr')]
+                    ctx.check('ring', not eff, site, '[capacity %d] an idle step with an empty queue has effects' % cap)
+                    continue
+                taken = [e for e in evs if e['k'] == 'st' and e['loc'] == RING + ('cmd',) and e['val'] != ('null',)]
+                ok = nh == (h + 1) % cap and nt == t and nc == c - 1 and slots_read == {h} and taken and taken[0]['val'] == ('obj', 'EV[%d]' % h)
+                ctx.check('ring', ok, site, '[capacity %d] pop from (head %d, tail %d, count %d) gives (head %s, tail %s, count %s), reads slots %s, takes %s'
+                          % (cap, h, t, c, nh, nt, nc, sorted(slots_read), taken[0]['val'] if taken else None))
+            # observer: which slots does the "is this event buffered" query look at
+            def setup3(s, h=h, t=t, c=c):
+                _ring_setup(h, t, c)(s)
+                s.pnull['XCMD'] = False
+                s.mem[RING + ('cmd',)] = ('null',)
+            m.ms.it.unroll = cap + 2
+            try:
+                outs = m.run('cat_is_unsolicited_event_buffered', [SELF, ('obj', 'XCMD'), Lin.c(E['CAT_CMD_TYPE_NONE'])], setup=setup3)
+            finally:
+                m.ms.it.unroll = 1
+            window = [(h + i) % cap for i in range(c)]
+            site = ctx.site('cat_is_unsolicited_event_buffered', m.fn_line('cat_is_unsolicited_event_buffered'))
+            for s, rv in outs:
+                evs = trace_events(s.trace)
+                looked = set(e['loc'][3] for e in evs if e['k'] == 'ld' and e['loc'][:3] == RING + ('unsolicited_cmd_buffer',) and e['loc'][-1] == 'cmd')
+                cmps = [e for e in evs if e['k'] == 'ptrcmp']
+                hit = any(e['eq'] for e in cmps)
+                ctx.check('observer', looked <= set(window), site, '[capacity %d] the query inspects slots %s outside the queued window %s' % (cap, sorted(looked), window))
+                if _const(rv) == OK:
+                    ctx.check('observer', looked == set(window) and not hit, site, '[capacity %d] the query reports "not buffered" after inspecting slots %s of the window %s' % (cap, sorted(looked), window))
+                elif _const(rv) == BUSY:
+                    ctx.check('observer', hit, site, '[capacity %d] the query reports BUSY without a matching entry' % cap)
+                else:
+                    ctx.check('observer', False, site, 'the query returns %s' % (rv,))
+        # exactly once: the popped pair is installed in the same step and removed only by the reset
+        exu, tsu = transitions(ctx, 'evt', m)
+        for t in tsu:
+            sts = [e for e in t.stores() if e['loc'] == RING + ('cmd',)]
+            pops = [e for e in t.stores() if e['loc'] == RING + ('unsolicited_cmd_buffer_items_count',)]
+            if not t.frm.endswith('_IDLE'):
+                ctx.check('once', not pops, t.site(pops[0] if pops else None), '[capacity %d] an event is taken from the queue while another is being processed (%s)' % (cap, short(t.frm)))
+                ctx.check('once', all(e['val'] == ('null',) for e in sts), t.site(sts[0] if sts else None), 'the event in progress is replaced in state %s' % short(t.frm))
+                if t.to.endswith('_IDLE'):
+                    ctx.check('once', any(e['val'] == ('null',) for e in sts), t.site(), 'the event machine returns to idle from %s without clearing the event in progress' % short(t.frm))
+            else:
+                if pops:
+                    ctx.check('once', any(e['val'] != ('null',) for e in sts) or t.to.endswith('_IDLE'), t.site(pops[0]), 'a popped event is not installed as the event in progress')
+        for f in (0, 1):
+            outs = m.run('cat_get_processed_command', [SELF, Lin.c(f)])
+            want = ('S', 'cmd') if f == 0 else RING + ('cmd',)
+            for s, rv in outs:
+                lds = [e['loc'] for e in trace_events(s.trace) if e['k'] == 'ld' and e['loc'][-1] == 'cmd']
+                ctx.check('observer', lds == [want], ctx.site('cat_get_processed_command', m.fn_line('cat_get_processed_command')),
+                          'cat_get_processed_command(%d) reads %s' % (f, lds))
+    ctx.extra['ring_states_enumerated'] = total_triples
+    ctx.extra['exhaustive'] = True
+    return ctx
